@@ -689,4 +689,177 @@ example : ∃ (n : Nat) (K : Nat → Nat → Rat) (Cn Cp : Rat) (w : Nat → Rat
     (∀ x y, K x y = K y x) ∧ 0 ≤ Cn ∧ 0 ≤ Cp ∧ ∀ k, k < n → 0 ≤ w k :=
   ⟨2, fun _ _ => 1, 1, 2, fun _ => 1, fun _ _ => rfl, by norm_num, by norm_num, fun _ _ => by norm_num⟩
 
+
+/-! ## End to end: what `AccuracyReached` means for the trained machine -/
+
+/-- positive semi-definiteness of a kernel in the usual sense: every finite Gram matrix `K(f a, f b)` is PSD -/
+def KernelPSD (K : Nat → Nat → Rat) : Prop :=
+  ∀ (m : Nat) (f : Nat → Nat) (v : Nat → Rat), 0 ≤ bil m (fun a b => K (f a) (f b)) v v
+
+theorem KernelPSD.qmat {K : Nat → Nat → Rat} (h : KernelPSD K) (s : RS) (hK : s.K = K) : PSD s.n (Qmat s) := by
+  intro v; unfold Qmat; rw [hK]; exact h s.n s.perm v
+
+/-- if the model of `QpSolver::solve` reports `AccuracyReached`, the state it returns has all variables active and a
+KKT violation below `eps` -/
+theorem solve_acc (strategy : Nat) (eps : Rat) : ∀ (fuel : Nat) (s : RS) (counter it : Nat),
+    (solve strategy eps fuel s counter it).2.1 = true →
+    (solve strategy eps fuel s counter it).1.checkKKT < eps ∧
+    (solve strategy eps fuel s counter it).1.active = (solve strategy eps fuel s counter it).1.n := by
+  intro fuel
+  induction fuel with
+  | zero => intro s _ _ h; simp [solve] at h
+  | succ fuel ih =>
+    intro s counter it h
+    unfold solve at h ⊢
+    cases hn : (solveIter strategy eps s counter).2 with
+    | none =>
+      obtain ⟨hk, hev⟩ := stop_implies_kkt strategy eps s counter hn
+      simp only [hev, List.getLast?_singleton, Option.map_some, Option.getD_some]
+      exact ⟨hk, unshrink_active s⟩
+    | some p =>
+      obtain ⟨s', c'⟩ := p
+      simp only [hn] at h ⊢
+      exact ih s' c' (it + 1) h
+
+/-- the data of the problem never changes during a solver run -/
+theorem solveIter_K (strategy : Nat) (eps : Rat) (s : RS) (counter : Nat) :
+    (∀ e, e ∈ (solveIter strategy eps s counter).1 → e.2.K = s.K) ∧
+    (∀ s' c', (solveIter strategy eps s counter).2 = some (s', c') → s'.K = s.K) := by
+  have hun : s.unshrink.K = s.K := by unfold State.unshrink; split <;> rfl
+  have hsh : ∀ t : RS, (t.shrink eps).1.K = t.K := by
+    intro t
+    unfold State.shrink
+    split
+    · rfl
+    · dsimp only
+      have hgo : ∀ (lu sd : Rat) (a : Nat) (u : RS), (State.shrinkGo lu sd a u).K = u.K := by
+        intro lu sd a
+        induction a with
+        | zero => intro u; rfl
+        | succ a ih => intro u; rw [shrinkGo_succ]; split
+                       · rw [ih]; rfl
+                       · exact ih u
+      split
+      · rw [hgo]; unfold State.unshrink; split <;> rfl
+      · rw [hgo]
+  have hsmo : ∀ (t : RS) (i j : Nat), (t.updateSMO i j).K = t.K := fun t i j => (updateSMO_frame t i j).2.2.1
+  unfold solveIter
+  by_cases hacc : (s.select strategy 0 0).2.2 < eps
+  · simp only [hacc, if_true]
+    by_cases hkkt : s.unshrink.checkKKT < eps
+    · simp only [hkkt, if_true]
+      refine ⟨?_, fun s' c' hn => by simp at hn⟩
+      intro e he
+      simp only [List.mem_cons, List.not_mem_nil, or_false] at he; rw [he]; exact hun
+    · simp only [hkkt, if_false]
+      split
+      · refine ⟨?_, fun s' c' hn => by
+          simp only [Option.some.injEq, Prod.mk.injEq] at hn; rw [← hn.1, hsh, hsmo, hsh, hun]⟩
+        intro e he
+        simp only [List.cons_append, List.nil_append, List.mem_cons, List.not_mem_nil, or_false] at he
+        rcases he with he | he | he | he <;> rw [he]
+        · exact hun
+        · rw [hsh, hun]
+        · rw [hsmo, hsh, hun]
+        · rw [hsh, hsmo, hsh, hun]
+      · refine ⟨?_, fun s' c' hn => by
+          simp only [Option.some.injEq, Prod.mk.injEq] at hn; rw [← hn.1, hsmo, hsh, hun]⟩
+        intro e he
+        simp only [List.cons_append, List.nil_append, List.mem_cons, List.not_mem_nil, or_false] at he
+        rcases he with he | he | he <;> rw [he]
+        · exact hun
+        · rw [hsh, hun]
+        · rw [hsmo, hsh, hun]
+  · simp only [hacc, if_false]
+    split
+    · refine ⟨?_, fun s' c' hn => by
+        simp only [Option.some.injEq, Prod.mk.injEq] at hn; rw [← hn.1, hsh, hsmo]⟩
+      intro e he
+      simp only [List.nil_append, List.cons_append, List.mem_cons, List.not_mem_nil, or_false] at he
+      rcases he with he | he <;> rw [he]
+      · exact hsmo _ _ _
+      · rw [hsh, hsmo]
+    · refine ⟨?_, fun s' c' hn => by
+        simp only [Option.some.injEq, Prod.mk.injEq] at hn; rw [← hn.1, hsmo]⟩
+      intro e he
+      simp only [List.nil_append, List.mem_cons, List.not_mem_nil, or_false] at he
+      rw [he]; exact hsmo _ _ _
+
+theorem solve_K (strategy : Nat) (eps : Rat) : ∀ (fuel : Nat) (s : RS) (counter it : Nat),
+    (solve strategy eps fuel s counter it).1.K = s.K := by
+  intro fuel
+  induction fuel with
+  | zero => intro s _ _; rfl
+  | succ fuel ih =>
+    intro s counter it
+    obtain ⟨hev, hnext⟩ := solveIter_K strategy eps s counter
+    unfold solve
+    cases hn : (solveIter strategy eps s counter).2 with
+    | none =>
+      simp only []
+      cases hl : (solveIter strategy eps s counter).1.getLast? with
+      | none => simp
+      | some e => simpa using hev e (List.mem_of_getLast? hl)
+    | some p =>
+      obtain ⟨s', c'⟩ := p
+      simp only []
+      rw [ih s' c' (it + 1)]; exact hnext s' c' hn
+
+/-- the block kernel of ε-regression is a PSD kernel when `K` is -/
+theorem KernelPSD.block {K : Nat → Nat → Rat} (h : KernelPSD K) (n : Nat) :
+    KernelPSD (fun a b => K (a % n) (b % n)) := fun m f v => h m (fun a => f a % n) v
+
+/-- **end to end, box-constrained problem** (any start state inside the invariant, maximum-gain selection, any
+iteration limit and start counter): if the model of `QpSolver::solve` reports `AccuracyReached` for a PSD kernel, then
+NO coefficient vector inside the boxes has a dual objective more than `eps·Σ(U−L)` above the returned one.  No
+hypothesis about the run is left: `solve_inv_box` covers every selection the solver makes. -/
+theorem solve_optimal_box (s0 : RS) (h0 : Inv s0) (he : s0.eqc = false) (hpsd : KernelPSD s0.K)
+    (strategy : Nat) (hstr : 2 ≤ strategy) (eps : Rat) (heps : 0 < eps) (fuel counter it : Nat) :
+    let r := solve strategy eps fuel s0 counter it
+    r.2.1 = true → ∀ β : Nat → Rat, (∀ k, k < r.1.n → r.1.L k ≤ β k ∧ β k ≤ r.1.U k) →
+      dual r.1.n (Qmat r.1) r.1.lin β - dualObjective r.1 ≤ eps * rsum (fun k => r.1.U k - r.1.L k) r.1.n := by
+  intro r hacc β hβ
+  obtain ⟨hI, he'⟩ : Inv r.1 ∧ r.1.eqc = false := C08.solve_inv_box strategy hstr eps heps fuel s0 counter it h0 he
+  obtain ⟨hk, hact⟩ := solve_acc strategy eps fuel s0 counter it hacc
+  have hK : r.1.K = s0.K := solve_K strategy eps fuel s0 counter it
+  exact stopped_near_optimal_box hI he' hact (hpsd.qmat r.1 hK) (le_of_lt heps) hk β hβ
+
+/-- FULL STATEMENT: the same for the equality-constrained problem (LibSVM second-order selection) against every
+feasible `β` with the same coefficient sum.  PROVED PART: runs whose gradients stay strictly inside the C++ sentinel
+range `(−1e100, 1e100)` at the start of every pass (`C08.selectLibSVM_sentinel_witness` shows what goes wrong outside). -/
+theorem solve_optimal_svm_partial (s0 : RS) (h0 : Inv s0) (he : s0.eqc = true) (hpsd : KernelPSD s0.K)
+    (eps : Rat) (heps : 0 < eps) (fuel counter it : Nat)
+    (hsent : ∀ t, t ∈ C08.passStates 1 eps fuel s0 counter → SentinelOK t) :
+    let r := solve 1 eps fuel s0 counter it
+    r.2.1 = true → ∀ β : Nat → Rat, (∀ k, k < r.1.n → r.1.L k ≤ β k ∧ β k ≤ r.1.U k) → rsum β r.1.n = alphaSum r.1 →
+      dual r.1.n (Qmat r.1) r.1.lin β - dualObjective r.1 ≤ eps * rsum (fun k => r.1.U k - r.1.L k) r.1.n := by
+  intro r hacc β hβ hsum
+  obtain ⟨hI, he'⟩ : Inv r.1 ∧ r.1.eqc = true := C08.solve_inv_svm_partial eps heps fuel s0 counter it h0 he hsent
+  obtain ⟨hk, hact⟩ := solve_acc 1 eps fuel s0 counter it hacc
+  have hK : r.1.K = s0.K := solve_K 1 eps fuel s0 counter it
+  exact stopped_near_optimal_svm hI he' hact (hpsd.qmat r.1 hK) (le_of_lt heps) hk β hβ hsum
+
+/-- **end to end, C-SVM without bias** (one or class-specific `C`, per-example weights; the model of
+`CSvmTrainer::optimize` with the box-constrained problem, any shrinking flag, any iteration limit): if training reports
+`AccuracyReached` for a PSD kernel, the returned coefficients are `eps·Σ(U−L)`-optimal for the dual. -/
+theorem csvm_nobias_optimal (n : Nat) (K : Nat → Nat → Rat) (y : Nat → Bool) (Cn Cp : Rat) (w : Nat → Rat)
+    (eps : Rat) (shrink : Bool) (maxIter : Nat) (hsym : ∀ x y, K x y = K y x) (hpsd : KernelPSD K)
+    (hCn : 0 ≤ Cn) (hCp : 0 ≤ Cp) (hw : ∀ k, k < n → 0 ≤ w k) (heps : 0 < eps) :
+    let r := train2 n K y Cn Cp w eps false shrink maxIter
+    r.2.1 = true → ∀ β : Nat → Rat, (∀ k, k < r.1.n → r.1.L k ≤ β k ∧ β k ≤ r.1.U k) →
+      dual r.1.n (Qmat r.1) r.1.lin β - dualObjective r.1 ≤ eps * rsum (fun k => r.1.U k - r.1.L k) r.1.n :=
+  solve_optimal_box (csvmInit2 n K y Cn Cp w false shrink)
+    (csvmInit2_inv n K y Cn Cp w false shrink hsym hCn hCp hw) rfl hpsd 2 (Nat.le_refl _) eps heps maxIter 0 0
+
+example : KernelPSD (fun _ _ => (1 : Rat)) := by
+  intro m f v
+  have : bil m (fun _ _ => (1 : Rat)) v v = rsum v m * rsum v m := by
+    unfold bil
+    have e : (fun a => v a * rsum (fun b => (1 : Rat) * v b) m) = fun a => rsum v m * v a := by
+      funext a
+      have : rsum (fun b => (1 : Rat) * v b) m = rsum v m := rsum_congr (fun k _ => one_mul _)
+      rw [this]; ring
+    rw [e, rsum_mul_left]
+  rw [this]; exact mul_self_nonneg _
+
 end SharkVerif.C07
